@@ -901,6 +901,29 @@ func gen(r *rand.Rand, tier string, n int) []any {
 		for q := 0; q < perBlock && len(out) < n; q++ {
 			in := input{Series: series, Ext: ext}
 			in.Matchers = genMatchers(r, series, ext)
+			broad := q == 0 || r.Intn(5) == 0
+			if broad {
+				// two broad add-type matchers on different labels: several posting groups with many
+				// candidates, so that lazy expansion has something to mark and to re-check
+				names := []string{"__name__", "a", "b"}
+				r.Shuffle(len(names), func(i, j int) { names[i], names[j] = names[j], names[i] })
+				in.Matchers = nil
+				for _, n := range names[:2] {
+					switch r.Intn(4) {
+					case 0:
+						in.Matchers = append(in.Matchers, matcherIn{Type: "!=", Name: n, Value: ""})
+					case 1:
+						in.Matchers = append(in.Matchers, matcherIn{Type: "=~", Name: n, Value: ".+"})
+					case 2:
+						in.Matchers = append(in.Matchers, matcherIn{Type: "=~", Name: n, Value: map[string]string{"__name__": "(m1|up|m2)", "a": "a.*", "b": "[xyz].*"}[n]})
+					default:
+						in.Matchers = append(in.Matchers, matcherIn{Type: "!~", Name: n, Value: "nope|"})
+					}
+				}
+				if r.Intn(3) == 0 {
+					in.Matchers = append(in.Matchers, matcherIn{Type: "!=", Name: names[2], Value: "zzz"})
+				}
+			}
 			hasNonExt := false
 			for _, m := range in.Matchers {
 				if m.Name != ext[0] {
@@ -911,6 +934,13 @@ func gen(r *rand.Rand, tier string, n int) []any {
 				continue
 			}
 			in.History = genHistory(r, series)
+			if broad {
+				wide := [2]int64{-1 << 40, 1 << 40}
+				in.History = [][2]int64{genNarrow(r, series), wide}
+				if r.Intn(2) == 0 {
+					in.History = [][2]int64{genNarrow(r, series), genNarrow(r, series), wide, genNarrow(r, series)}
+				}
+			}
 			in.Mint, in.Maxt = in.History[0][0], in.History[0][1]
 			in.Configs = genConfigs(r)
 			out = append(out, in)
